@@ -859,3 +859,59 @@ def rule_selector_row_dedup(db: ProgramDB) -> List[Instance]:
                         f"no conclusion mentions)", line=bad[1].lineno if bad else None))
     return out
 
+
+# ---------------------------------------------------------------------------------- DESCRIPTOR-SIBLINGS
+def rule_descriptor_siblings(db: ProgramDB) -> List[Instance]:
+    """entity(...) and set_of(...) are two descriptors with one implementation: whatever the engine decides by looking at the KIND of
+    a descriptor it decides for every kind.  A type test that names one concrete descriptor class has the others in the same
+    if / elif chain (the two ways of presenting a result), or names their common base; a test for `Entity` alone - where the
+    conditions of a query start, which node a rule block re-enters - makes a rule written with set_of behave differently from the
+    same rule written with entity (a refinement nested in a refinement under set_of: the concluded variable is no longer inferred)."""
+    out = []
+    qod = db.cls("QueryObjectDescriptor")
+    kinds = {c.name for c in qod.all_subclasses(include_self=False)}
+    if len(kinds) < 2:
+        raise AnalysisError("fewer than two concrete descriptor classes found")
+    n = 0
+
+    def named(t) -> Set[str]:
+        if isinstance(t, ast.Call) and dotted(t.func) == "isinstance" and len(t.args) == 2:
+            return {unparse(e).split(".")[-1] for e in (t.args[1].elts if isinstance(t.args[1], ast.Tuple) else [t.args[1]])}
+        return set()
+    for fn in sorted(db.all_functions(), key=lambda f: f.qualname):
+        for node in own_nodes(fn.node):
+            if not (isinstance(node, ast.Call) and dotted(node.func) == "isinstance" and len(node.args) == 2):
+                continue
+            ks = named(node) & kinds
+            if qod.name in named(node):
+                n += 1
+                out.append(inst("DESCRIPTOR-SIBLINGS", HOLDS, fn, f"{fn.short}[{unparse(node)[:50]}]", "tests for the common base of the descriptors", line=node.lineno))
+                continue
+            if not ks:
+                continue
+            n += 1
+            missing = kinds - ks
+            if missing:
+                # the other kinds in the same if / elif chain?
+                st = node
+                while st is not None and not isinstance(st, ast.If):
+                    st = db.parent(st)
+                chain_names: Set[str] = set()
+                top = st
+                while top is not None and isinstance(db.parent(top), ast.If) and db.parent(top).orelse == [top]:
+                    top = db.parent(top)
+                cur = top
+                while isinstance(cur, ast.If):
+                    for t in ast.walk(cur.test):
+                        chain_names |= named(t)
+                    cur = cur.orelse[0] if len(cur.orelse) == 1 and isinstance(cur.orelse[0], ast.If) else None
+                missing -= chain_names
+            out.append(inst("DESCRIPTOR-SIBLINGS", VIOLATION if missing else HOLDS, fn, f"{fn.short}[{unparse(node)[:50]}]",
+                            "every kind of descriptor is covered (same test, or the other arms of the chain)" if not missing else
+                            f"`{unparse(node)}` singles out {sorted(ks)} and nothing in its if / elif chain covers {sorted(missing)}: a query built with "
+                            f"{' / '.join(sorted(missing))} takes another path here than the same query built with {' / '.join(sorted(ks))} "
+                            f"(where its conditions start, which node a rule block enters, which variable is inferred)", line=node.lineno))
+    if n < 3:
+        raise AnalysisError(f"only {n} type tests on descriptor kinds found (5 confirmed by reading)")
+    return out
+
